@@ -457,7 +457,11 @@ macro_rules! impl_cache_processor {
                         Ok(())
                     }
                     $item::Delete { key, conflict } => {
-                        self.policy.remove(&key); // deals with metrics updates.
+                        // The index may be held by another key with the same index hash but a
+                        // different conflict hash: that entry stays, and so must its charge.
+                        if !self.store.held_by_other(&key, conflict) {
+                            self.policy.remove(&key); // deals with metrics updates.
+                        }
                         if let Some(sitem) = self.store.try_remove(&key, conflict)? {
                             self.callback.on_exit(Some(sitem.value.into_inner()));
                         }
